@@ -18,6 +18,9 @@ package main
 import (
 	"bytes"
 	"fmt"
+	"go/ast"
+	"go/parser"
+	"go/token"
 	"os"
 	"regexp"
 	"strconv"
@@ -31,6 +34,7 @@ import (
 func init() {
 	register("c20-script", func(a cmdArgs) { cmdC20Script(a.seed, a.n, a.dir) })
 	register("c20-corr", func(a cmdArgs) { cmdC20Corr(a.seed, a.n, a.dir) })
+	register("c20-pos", func(a cmdArgs) { cmdC20Pos(a.seed, a.n, a.dir) })
 	register("c20-probe", func(a cmdArgs) { cmdC20Probe(a.file) })
 	register("c20-gen", func(a cmdArgs) { // print generated program number n of the seed, with its expectation
 		r := newRng(c20Seed(a.seed))
@@ -122,8 +126,9 @@ var c20KindsAll = []string{"func", "func", "func", "method", "method", "method-l
 var c20KindsModel = []string{"func", "func", "func", "lambda-global", "lambda-local", "variadic", "variadic-spread", "rec", "mutual", "funcparam"}
 var c20CtxAll = []string{"plain", "return", "for", "range", "forinit", "forcond", "forpost", "if", "ifinit", "ifthen", "ifelse", "elseif", "switchtag", "switchcase", "switcharm", "nested", "compound", "indexassign", "andor", "unary", "mapval", "structlit", "slicelit", "callarg2", "discard", "multiassign", "structlit-ml", "binop-ml", "arglist-ml"}
 var c20CtxModel = []string{"plain", "return", "for", "range", "forinit", "forcond", "forpost", "if", "ifinit", "ifthen", "ifelse", "elseif", "switchtag", "switchcase", "switcharm", "nested", "compound", "indexassign", "andor", "unary", "slicelit", "callarg2", "discard", "binop-ml", "arglist-ml"}
-var c20FaultsAll = []string{"div", "mod", "divassign", "index", "indexset", "indexneg", "nilslice", "strindex", "slicebound", "slicelow", "strslice", "nilmap", "nilmapint", "panic", "nilfunc", "nilfield", "nilfieldset", "nilinner", "nilfieldfunc", "nilrecvcall", "makeneg", "native"}
-var c20FaultsModel = []string{"div", "mod", "divassign", "index", "indexset", "indexneg", "nilslice", "strindex", "slicebound", "slicelow", "strslice", "panic", "nilfunc", "makeneg"}
+var c20FaultsAll = []string{"div", "mod", "divassign", "index", "indexset", "indexneg", "nilslice", "strindex", "slicebound", "slicelow", "strslice", "nilmap", "nilmapint", "panic", "nilfunc", "nilfield", "nilfieldset", "nilinner", "nilfieldfunc", "nilrecvcall", "makeneg", "native",
+	"opidx-read", "opidx-div", "opidx-dec", "opfield-div", "opfield-nested-div", "opfield-nested-nil", "nilptr-inc", "nilptr-opassign", "mapstruct-inc", "opmap-mod", "fieldidx-inc", "tuple-store", "tuple-store2"}
+var c20FaultsModel = []string{"div", "mod", "divassign", "index", "indexset", "indexneg", "nilslice", "strindex", "slicebound", "slicelow", "strslice", "panic", "nilfunc", "makeneg", "opidx-read", "opidx-div", "opidx-dec", "tuple-store", "tuple-store2"}
 var c20Wraps = []string{"none", "none", "loop", "branch", "switch", "range"}
 
 // callExpr renders the call of level j with argument arg; pre = statements that must precede it
@@ -422,6 +427,34 @@ func (q *c20Gen) faultBody(ind int) {
 		f = []fl{{"t := &T{}", false}, {"return t.in.v", true}}
 	case "nilfieldfunc":
 		f = []fl{{"t := &T{}", false}, {"return t.f(a)", true}}
+	// compound assignments: the READ of the target or the OPERATION faults (instructions the assignment node emits
+	// between the code of its sub-expressions), and tuple assignments whose first / second store faults
+	case "opidx-read":
+		f = []fl{{"xs := []int{1}", false}, {"xs[a+3] += 2", true}, {"return xs[0]", false}}
+	case "opidx-div":
+		f = []fl{{"xs := []int{1}", false}, {"z := a - a", false}, {"xs[0] /= z", true}, {"return xs[0]", false}}
+	case "opidx-dec":
+		f = []fl{{"xs := []int{1}", false}, {"xs[a+3]--", true}, {"return xs[0]", false}}
+	case "opfield-div":
+		f = []fl{{"t := &T{v: 5}", false}, {"z := a - a", false}, {"t.v /= z", true}, {"return t.v", false}}
+	case "opfield-nested-div":
+		f = []fl{{"t := &T{in: &T{v: 3}}", false}, {"z := a - a", false}, {"t.in.v /= z", true}, {"return t.in.v", false}}
+	case "opfield-nested-nil":
+		f = []fl{{"t := &T{}", false}, {"t.in.v *= 2", true}, {"return a", false}}
+	case "nilptr-inc":
+		f = []fl{{"var p *T", false}, {"p.v++", true}, {"return a", false}}
+	case "nilptr-opassign":
+		f = []fl{{"var p *T", false}, {"p.v += a", true}, {"return a", false}}
+	case "mapstruct-inc":
+		f = []fl{{"m := map[string]*T{}", false}, {"m[\"k\"].v++", true}, {"return a", false}}
+	case "opmap-mod":
+		f = []fl{{"m := map[string]int{\"k\": 4}", false}, {"z := a - a", false}, {"m[\"k\"] %= z", true}, {"return m[\"k\"]", false}}
+	case "fieldidx-inc":
+		f = []fl{{"t := &T{xs: []int{1}}", false}, {"t.xs[a+3]++", true}, {"return t.xs[0]", false}}
+	case "tuple-store":
+		f = []fl{{"s := []int{1}", false}, {"u := []int{2}", false}, {"s[a+3], u[0] = 1, 2", true}, {"return s[0] + u[0]", false}}
+	case "tuple-store2":
+		f = []fl{{"s := []int{1}", false}, {"u := []int{2}", false}, {"s[0], u[a+3] = 1, 2", true}, {"return s[0] + u[0]", false}}
 	case "nilrecvcall":
 		f = []fl{{"var t *T", false}, {"return t.f(a)", true}}
 	case "makeneg":
@@ -604,6 +637,7 @@ func genC20(r *rng, depth int, multi bool, model bool) *c20Prog {
 		q.ln(0, "type T struct {")
 		q.ln(1, "v  int")
 		q.ln(1, "f  func(int) int")
+		q.ln(1, "xs []int")
 		q.ln(1, "in *T")
 		q.ln(0, "}")
 		q.ln(0, "")
@@ -1279,7 +1313,7 @@ func c20Case(p *c20Prog, optimize bool) (string, bool) {
 	if t.Err != "" {
 		fr, _, _, ok := c20Parse(t.Err)
 		if !ok {
-			return "", false
+			return "unparsable:" + t.Err, false
 		}
 		for _, f := range fr {
 			trace = append(trace, coqZ(c20Pos(fidx, f.Fn, f.Line, f.Col)))
@@ -1301,6 +1335,10 @@ func cmdC20Corr(seed uint64, n int, dir string) {
 		opt := c%2 == 0
 		cs, ok := c20Case(p, opt)
 		if !ok {
+			if strings.HasPrefix(cs, "unparsable:") {
+				// an error text without "<function> <file>:<line>:<col>: <OPCODE>: " / "\t<position>" lines cannot be compared at all
+				st.mismatchG("corr-unparsable", c20Mismatch{Kind: "expected-text", Fault: p.Fault, Mode: fmt.Sprintf("optimize=%v", opt), What: "the error text of the run has no parsable position lines", Expected: c20Expect(p.Frames), Got: strings.TrimPrefix(cs, "unparsable:"), Src: p.Src})
+			}
 			st.Histogram["not_compiled"]++
 			continue
 		}
@@ -1320,4 +1358,157 @@ func cmdC20Probe(file string) {
 		t := c20Run(string(b), mode)
 		fmt.Printf("=== %s (stage %s) out=%q panic=%q\n%s\n--- again: %s\n", mode, t.Stage, t.Out, t.Panic, t.Err, t.Err2)
 	}
+}
+
+// ---------------------------------------------------------------------------
+// c20-pos: structural check of the positions the REAL compiler stamped on the code of every generated program
+// (optimizer off and on) and of every test-table string of the repository:
+//   - no instruction has a zero position;
+//   - file = the program's file; the function name is one the program declares (or "" = package level), and the
+//     line lies inside the source range of that function (ranges from the Go parser: the programs are valid Go);
+//   - (line, column) is the position of some node of goatlang's own syntax tree (hook VerifParse, full rendering):
+//     the observable part of "every instruction carries the position of the node that emitted it".
+
+type c20Range struct{ lo, hi int }
+
+// c20FuncRanges: goatlang's function names -> source line range (lambdas keyed without the column).
+func c20FuncRanges(src string) (map[string]c20Range, int, error) {
+	fset := token.NewFileSet()
+	f, err := parser.ParseFile(fset, "main.go", src, 0)
+	if err != nil {
+		return nil, 0, err
+	}
+	res := map[string]c20Range{}
+	ast.Inspect(f, func(n ast.Node) bool {
+		switch d := n.(type) {
+		case *ast.FuncDecl:
+			name := "main." + d.Name.Name
+			if d.Recv != nil && len(d.Recv.List) == 1 {
+				t := d.Recv.List[0].Type
+				if st, ok := t.(*ast.StarExpr); ok {
+					t = st.X
+				}
+				if id, ok := t.(*ast.Ident); ok {
+					name = "main." + id.Name + "." + d.Name.Name
+				}
+			}
+			res[name] = c20Range{fset.Position(d.Pos()).Line, fset.Position(d.End()).Line}
+		case *ast.FuncLit:
+			l := fset.Position(d.Pos()).Line
+			res[fmt.Sprintf("main.main/main.go:%d", l)] = c20Range{l, fset.Position(d.End()).Line}
+		}
+		return true
+	})
+	return res, strings.Count(src, "\n") + 1, nil
+}
+
+var c20NodePosRe = regexp.MustCompile(`\|(\d+):(\d+)[ )]`)
+
+type c20PosMismatch struct {
+	Kind  string `json:"kind"`
+	What  string `json:"what"`
+	Mode  string `json:"mode"`
+	Index int    `json:"instruction_index"`
+	Ins   string `json:"instruction"`
+	Pos   string `json:"position"`
+	Src   string `json:"src"`
+}
+
+func c20PosCheck(st *stats, group, src string, ins []g.VerifIns, mode string, ranges map[string]c20Range, nlines int, nodes map[[2]int]bool, file string) {
+	for idx, i := range ins {
+		pos := fmt.Sprintf("%s(...) %s:%d:%d", i.Func, i.File, i.Line, i.Col)
+		bad := ""
+		switch {
+		case i.File == "" && i.Line == 0 && i.Col == 0:
+			bad = "zero-position: the instruction carries no position (a failure raised here has no function and no line)"
+		case file != "" && i.File != file:
+			bad = "wrong-file: the instruction names another file"
+		case ranges != nil:
+			if i.Func == "" {
+				if i.Line < 1 || i.Line > nlines {
+					bad = "out-of-file: package-level instruction outside the file"
+				}
+			} else if rg, ok := ranges[c20Norm(i.Func)]; !ok {
+				bad = "unknown-function: the instruction names a function the program does not declare"
+			} else if i.Line < rg.lo || i.Line > rg.hi {
+				bad = fmt.Sprintf("out-of-function: line outside the source range %d..%d of the function it names", rg.lo, rg.hi)
+			}
+		}
+		if bad == "" && nodes != nil && !nodes[[2]int{i.Line, i.Col}] {
+			bad = "no-such-node: (line, column) is not the position of any node of the syntax tree"
+		}
+		if bad != "" {
+			k := strings.SplitN(bad, ":", 2)[0]
+			st.mismatchG("instruction-position|"+group+"|"+k+"|"+i.Code, c20PosMismatch{Kind: "instruction-position", What: bad, Mode: mode, Index: idx, Ins: i.Text, Pos: pos, Src: src})
+		}
+	}
+}
+
+func cmdC20Pos(seed uint64, n int, dir string) {
+	r := newRng(c20Seed(seed) + 7)
+	st := newStats()
+	total := 0
+	for c := 0; c < n; c++ {
+		p := genC20(r, 1+c%30, c%4 == 3, c%5 == 4)
+		ranges, nlines, err := c20FuncRanges(p.Src)
+		if err != nil {
+			st.Histogram["generator: not parsable as Go"]++
+			continue
+		}
+		nodes := map[[2]int]bool{}
+		if tree, err := g.VerifParse(p.Src, true); err == nil {
+			for _, m := range c20NodePosRe.FindAllStringSubmatch(tree, -1) {
+				l, _ := strconv.Atoi(m[1])
+				cc, _ := strconv.Atoi(m[2])
+				nodes[[2]int{l, cc}] = true
+			}
+		} else {
+			nodes = nil
+		}
+		for _, opt := range []bool{false, true} {
+			var out bytes.Buffer
+			vm := g.New(g.WithStdout(&out))
+			fs := fstest.MapFS{"main/main.go": &fstest.MapFile{Data: []byte(p.Src)}}
+			var ins []g.VerifIns
+			func() {
+				defer func() { recover() }()
+				ins, _, _, _ = g.VerifLoadTrace(vm, fs, "main", opt)
+			}()
+			if ins == nil {
+				st.Histogram["not compiled"]++
+				continue
+			}
+			total += len(ins)
+			c20PosCheck(st, "generated", p.Src, ins, fmt.Sprintf("optimize=%v", opt), ranges, nlines, nodes, "main/main.go")
+		}
+		st.add(fmt.Sprintf("generated program fault=%s", p.Fault), fmt.Sprintf("positions of program %d (fault %s, %d lines)", c, p.Fault, strings.Count(p.Src, "\n")))
+	}
+	// every input string of the repository's test tables that compiles
+	nt := 0
+	for _, s := range testTableStrings() {
+		for _, opt := range []bool{false, true} {
+			var ins []g.VerifIns
+			var err error
+			func() {
+				defer func() {
+					if r := recover(); r != nil {
+						err = fmt.Errorf("%v", r)
+					}
+				}()
+				ins, _, err = g.VerifCompile(g.New(), s, opt)
+			}()
+			if err != nil || ins == nil {
+				continue
+			}
+			total += len(ins)
+			c20PosCheck(st, "test-table", s, ins, fmt.Sprintf("optimize=%v", opt), nil, 0, nil, "")
+			if opt {
+				nt++
+				st.add("test-table string", s)
+			}
+		}
+	}
+	st.Extra["instructions_checked"] = total
+	st.Extra["test_table_strings"] = nt
+	st.write(dir + "/C20_pos_stats.json")
 }
